@@ -13,6 +13,10 @@ func ExtActions(thorough bool) []*wire.N {
 	for _, k := range ActionKinds[:25] {
 		out = append(out, Action(k, len(out)))
 	}
+	// kinds without a constructor (built as literals of their exported types)
+	for _, k := range ActionKinds[25:] {
+		out = append(out, Action(k, len(out)))
+	}
 	for p := uint64(0); p < 64; p++ {
 		out = append(out, Nat(p, 1+p%2, int(p)))
 	}
@@ -241,9 +245,10 @@ func Controller(thorough bool, expired func() bool, level func(name string, comp
 		yield(MultipartRequest(1, Match(f.Clone())))
 		yield(MultipartRequest(2, Match(f.Clone())))
 	}
-	for _, k := range []string{"instr_goto_table", "instr_write_metadata", "instr_write_actions", "instr_apply_actions"} {
+	for _, k := range []string{"instr_goto_table", "instr_write_metadata", "instr_write_actions", "instr_apply_actions", "instr_meter"} {
 		yield(FlowMod(0, nil, Instr(k, 1)))
 	}
+	yield(FlowMod(0, nil, Instr("instr_meter", 2), Instr("instr_goto_table", 3)))
 	if done("L1 every single action of the extended alphabet in every container; every match field alone") {
 		return
 	}
